@@ -583,7 +583,15 @@ func runAPI(in *apiInput) (hx.Case, error) {
 	for i := range tid {
 		tid[i] = gen.Generate()
 	}
-	base := timing.GetIDGeneratorNextID() + 1
+	// The IDs the tracing package generates itself (registry task IDs, tag and
+	// milestone IDs) come from one tracing-local counter; learn its next value by
+	// drawing one ID through the exported API on a throw-away traced domain.
+	probe := &fakeComp{HookableBase: hooking.NewHookableBase(), PortOwnerBase: messaging.NewPortOwnerBase(),
+		name: "Probe", now: &now}
+	tracing.CollectTrace(probe, &recorder{comp: "Probe", log: new([]rev)})
+	probeMsg := gen.Generate()
+	base := tracing.MsgIDAtReceiver(MsgA{messaging.MsgMeta{ID: probeMsg}}, probe) + 1
+	tracing.ForgetMsgIDAtReceiver(probeMsg, probe)
 	r0, i0, o0 := tracing.VerifRegistrySizes()
 
 	meta := func(op ApiOp, src, dst string) messaging.MsgMeta {
